@@ -5,7 +5,7 @@ from vf.core import Unit
 
 NAME = "U-errs"
 TOOL = "sim"
-PROPS = ["C06", "C16", "C13", "C01", "C08", "C09"]
+PROPS = ["C06", "C16", "C13", "C01", "C08", "C09", "C07"]
 TRUSTED = ["the probe driver prints the error returned by compile()"]
 
 
@@ -26,6 +26,11 @@ def corpus(tier):
         _loc("char x, y, z;\n#if 0\nx\n#else\n#endif\nvoid main() {\n  x = %s;\n}\n" % mul, 7, "after a skipped #if region"),
         {"source": "char x;\n#include \"/tmp\"\nvoid main() { }\n", "args": ["-O0"], "expect": {"panic": False, "stdout_contains": "on line 1 of /tmp (included in"}, "note": "a directory given as an include: the read failure names the file and the includer"},
     ]
+    # errors inside an included file, both kinds (Syntax / Compiler), as the driver prints them: own line and file, then the including file and the line of the #include
+    for hdr, kind, ln in (("c06_inc_directive.h", "Compiler error", 3), ("c06_inc_codegen.h", "Compiler error", 4), ("c06_inc_syntax.h", "Syntax error", 2)):
+        loc.append({"source": "char x, y, z;\n/* two\n   lines */\n\n#include \"/verif/witness/%s\"\nvoid main() { }\n" % hdr, "args": ["-O0"],
+                    "expect": {"panic": False, "stdout_matches": r"%s: [^\n]* on line %d of /verif/witness/%s \(included in \S+ on line 5\)" % (kind, ln, hdr.replace(".", r"\."))},
+                    "note": "%s on line %d of an included file, #include on line 5" % (kind, ln)})
     # recorded known finding: the expression of a statement carries no position of its own
     multi = [
         _loc("char x, y, z;\nvoid main() {\n  do {\n    x++;\n  } while (%s);\n}\n" % mul, 5, "condition of a do-while, two lines below the `do`"),
@@ -58,19 +63,28 @@ def corpus(tier):
         mac("#define A 1", "A2 = 5; r = A2 + A;", {"r": 6, "A2": 5}, "a macro name inside a longer identifier is left alone"),
         mac("#define A 1\n#undef A\n#define A 2", "r = A;", {"r": 2}, "#undef then a new definition"),
         mac("#define TWICE(x) x+x\n#define INC(x) x+1", "r = TWICE(INC(q));", {"r": 16}, "a macro call as the argument of another macro"),
+        mac("#define FOO 1\n#ifdef BAR\n#undef FOO\n#endif", "r = FOO;", {"r": 1}, "#undef in the group of a false #ifdef"),
+        mac("#define FOO 3\n#if 0\n#undef FOO\n#elif 0\n#undef FOO\n#else\n#endif", "r = FOO;", {"r": 3}, "#undef in false #if / #elif groups"),
+    ]
+    # more than a hundred macros (the tables are chunked by 100): #undef of an early one, then #undef / #define of a late one
+    fill = "\n".join("#define FILLER%d %d" % (k, k) for k in range(100))
+    over = fill + "\n#define ALPHA 1\n#define BETA 1\n#define MODE 1\n#define DELTA 1\n#undef FILLER0\n#undef MODE\n#define MODE 0"
+    macros += [
+        mac(over + "\n#if MODE\n#define RES 2\n#else\n#define RES 1\n#endif", "r = RES;", {"r": 1}, "over 100 macros: #if on a macro redefined after an early #undef"),
+        mac(over + "\n#if BETA == MODE\n#define RES 1\n#elif BETA\n#define RES 2\n#else\n#define RES 3\n#endif", "r = RES + FILLER99 + DELTA;", {"r": 2 + 99 + 1}, "over 100 macros: the neighbours of the redefined macro"),
     ]
     # character constants: every escape of the property's table, as a constant (string literals are U-qstr's subject)
     chars = [{"source": "const char t[10] = {'\\a','\\b','\\f','\\v','\\n','\\r','\\t','\\0','\\\\','\\''};\nvoid main() { X = t[0]; }\n", "args": ["-O0"],
               "expect": {"panic": False, "must_compile": True, "stdout_contains": "ARRAY t size=10 = 7 8 12 11 10 13 9 0 92 39"}, "note": "the ten escapes as character constants in a table"},
              {"source": "unsigned char c;\nvoid main() { c = '\\a'; }\n", "args": ["-O0"], "expect": {"panic": False, "must_compile": True, "stdout_contains": "LDA #7"}, "note": "'\\a' in an expression"}]
     from . import u_strscan
-    return [("literal-extent", ["C09"], u_strscan.candidates(None)), ("character-constants", ["C09"], chars), ("macro-forms", ["C08"], macros), ("constant-destinations-rejected", ["C13", "C01"], rejected), ("error-locations", ["C06"], loc), ("error-locations-inside-a-statement", ["C06"], multi), ("no-panic", ["C16"], nopanic)]
+    return [("literal-extent", ["C09"], u_strscan.candidates(None)), ("character-constants", ["C09"], chars), ("macro-forms", ["C08", "C07"], macros), ("constant-destinations-rejected", ["C13", "C01"], rejected), ("error-locations", ["C06"], loc), ("error-locations-inside-a-statement", ["C06"], multi), ("no-panic", ["C16"], nopanic)]
 
 
 def build(repo):
     u = Unit(NAME, TOOL, PROPS, [],
              assumptions=["BOUNDED: only the listed programs are covered"],
-             bounded=["the program lists of units/u_errs.py: 6 literals with backslashes before a quote, 2 character-constant programs, 7 macro forms, 3 rejected stores, 9 located errors, 3 located errors inside multi-line statements (known finding), 15 inputs that used to panic or could"])
+             bounded=["the program lists of units/u_errs.py: 6 literals with backslashes before a quote, 2 character-constant programs, 11 macro forms, 3 rejected stores, 9 located errors, 3 located errors inside multi-line statements (known finding), 15 inputs that used to panic or could"])
     u.text[None] = ""
     u.dropped = ["nothing is extracted: the whole compiler runs (vf/probe)"]
     return u
